@@ -38,6 +38,17 @@ func finishHist(c *Ctx, id string, res []Hist, rule string) {
 			continue
 		}
 		bad := false
+		aborted := false
+		for _, o := range h.Obs {
+			if o == "aborted" {
+				aborted = true
+			}
+		}
+		if aborted {
+			// another history of this run hung inside the implementation; this one was stopped and says nothing
+			c.Count("aborted-after-a-hang-elsewhere")
+			continue
+		}
 		for k, o := range h.Obs {
 			if o == "hang" || o == "panic" {
 				c.Fail("", fmt.Sprintf("step %d (%s %s): %s", k, h.Steps[k].Op, h.Steps[k].What, o), h)
